@@ -242,8 +242,16 @@ class Expander:
     # ------------------------------------------------------------------ calls
     def _call(self, e: ast.Call, fi, env, depth, busy):
         tg = self.t.resolve_call(e, fi)
+        # str(<integer / text constant>) is the text of that constant (defaults written as str(DEFAULT_X))
+        if isinstance(e.func, ast.Name) and e.func.id in ("str", "int") and len(e.args) == 1 and not e.keywords and "builtins." + e.func.id in tg.ext:
+            a0 = self._ex(e.args[0], fi, env, depth, busy)
+            if len(a0) == 1 and isinstance(a0[0], ast.Constant) and isinstance(a0[0].value, (int, str)) and not isinstance(a0[0].value, bool):
+                try:
+                    return [ast.Constant(value=str(a0[0].value) if e.func.id == "str" else int(a0[0].value))]
+                except ValueError:
+                    pass
         # inline small repo functions (single return, no ctor)
-        if depth > 0 and len(tg.repo) == 1 and not tg.ctor and not tg.ext and not tg.by_name:
+        if len(tg.repo) == 1 and not tg.ctor and not tg.ext and not tg.by_name:
             g = tg.repo[0]
             rets = [n for n in self.t.nodes_in(g, ast.Return) if n.value is not None]
             key = ("call", self.t.fkey(g))
@@ -252,6 +260,20 @@ class Expander:
             loops = list(self.t.nodes_in(g, (ast.For, ast.While, ast.Try)))
             small = not g.is_abstract and not g.is_wrapped and ((len(rets) == 1 and nstmts <= 8) or (2 <= len(rets) <= 4 and nstmts <= 12 and not loops
                                                                              and g.name.startswith("_") and not g.name.endswith("__")))
+            # a guarded conversion - `try: return conv(x) except <errors>: return default` and nothing else - stands for its
+            # conversion (what happens to unparsable input is the business of the rule that looks at the guard)
+            body_ = [st for st in g.node.body if not (isinstance(st, ast.Expr) and isinstance(st.value, ast.Constant))]
+            if not small and not g.is_abstract and not g.is_wrapped and len(body_) == 1 and isinstance(body_[0], ast.Try) and not body_[0].finalbody \
+                    and not body_[0].orelse and len(body_[0].body) == 1 and isinstance(body_[0].body[0], ast.Return) and isinstance(body_[0].body[0].value, ast.Call) \
+                    and all(len(h.body) == 1 and isinstance(h.body[0], ast.Return) for h in body_[0].handlers):
+                small = True
+                rets = [body_[0].body[0]]
+                free = True
+            else:
+                # pure delegation (`return other(args)`) costs no depth either
+                free = len(body_) == 1 and isinstance(body_[0], ast.Return) and isinstance(body_[0].value, ast.Call) and small
+            if not free and depth <= 0:
+                small = False
             if small and key not in busy:
                 bound = self.t.bind_args(g, e)
                 env2: Dict[str, List[ast.expr]] = {}
@@ -268,7 +290,7 @@ class Expander:
                     env2.setdefault(p_.arg, [ast.Name(id="<unbound:%s>" % p_.arg, ctx=ast.Load())])
                 out_ = []
                 for r_ in rets:
-                    out_ += self._ex(r_.value, g, env2, depth - 1, busy | {key})
+                    out_ += self._ex(r_.value, g, env2, depth if free else depth - 1, busy | {key})
                 return out_[:MAX_ALT]
         # keep the call, canonical callee name, expanded arguments
         if tg.repo and not tg.by_name and len(tg.repo) == 1 and not isinstance(e.func, ast.Attribute):
